@@ -128,8 +128,8 @@ impl Harness for C16 {
     }
     fn cases(&self, tier: Tier) -> u64 {
         match tier {
-            Tier::Quick => 60_000,
-            Tier::Thorough => 3_000_000,
+            Tier::Quick => 200_000,
+            Tier::Thorough => 20_000_000,
         }
     }
     fn gen(&self, rng: &mut Rng, tier: Tier) -> Case {
